@@ -19,7 +19,7 @@ func init() {
 		Rule: "a dedicated race-detector suite (GORACE halt_on_error=0, reports counted in the log files, de-duplicated by stack pair with line numbers stripped, attributed by the innermost non-runtime/non-stdlib frame of either access): " +
 			"S1 pipelined concurrent handlers writing on one connection (plain/TLS/StartTLS, back-pressure); S2 parallel StartTLS upgrades with traffic before and after; S3 Run/Ready/Stop racing connect storms; " +
 			"S4 connection teardown of every kind with handlers in flight; S5 the test directory served by 8 clients doing bind/search/add/modify/delete while the harness calls SetUsers/SetGroups/SetControls/SetTokenGroups/" +
-			"SetAllowAnonymousBind and the getters; S6 the same without Set*; S7 StartTLS upgrades followed by Stop with no traffic over the upgraded session; S8 a request pipelined ahead of StartTLS whose slow handler answers after the upgrade. Routes are registered before Run. Each scenario is repeated; a self-test race in harness code proves the detector is live. " +
+			"SetAllowAnonymousBind and the getters; S6 the same without Set*; S7 StartTLS upgrades followed by Stop with no traffic over the upgraded session; S8 a request pipelined ahead of StartTLS whose slow handler answers after the upgrade; S9 fresh servers whose very first requests are unrouted and arrive concurrently (one segment, several connections). Routes are registered before Run. Each scenario is repeated; a self-test race in harness code proves the detector is live. " +
 			"distinct_nontrivial = distinct (scenario, repetition, GOMAXPROCS) executions that created concurrent gldap goroutines",
 		Assume: []string{"the race detector generalises each observed execution to every execution with the same synchronisation structure, and says nothing about code the workloads did not run",
 			"getter results are only len()-inspected by the harness: deep reads of shared entries after a getter are the caller's business"},
@@ -30,13 +30,13 @@ func init() {
 				procs = []string{"16", "4", "2"}
 			}
 			for _, p := range procs {
-				for _, s := range []string{"S1-writers", "S2-starttls", "S3-stop-storms", "S4-teardown", "S5-directory-set", "S6-directory", "S7-starttls-then-stop", "S8-inflight-across-starttls"} {
+				for _, s := range []string{"S1-writers", "S2-starttls", "S3-stop-storms", "S4-teardown", "S5-directory-set", "S6-directory", "S7-starttls-then-stop", "S8-inflight-across-starttls", "S9-unrouted-first-requests"} {
 					ps = append(ps, Phase{Name: s + "-p" + p, Race: true, Run: c15Scenario, Env: map[string]string{"GOMAXPROCS": p}, Arg: s})
 				}
 			}
 			if tier == "thorough" {
 				// the same scenarios under a second Go runtime/scheduler (built by ./check with go1.26.8 when present)
-				for _, s := range []string{"S1-writers", "S2-starttls", "S3-stop-storms", "S4-teardown", "S5-directory-set", "S6-directory", "S7-starttls-then-stop", "S8-inflight-across-starttls"} {
+				for _, s := range []string{"S1-writers", "S2-starttls", "S3-stop-storms", "S4-teardown", "S5-directory-set", "S6-directory", "S7-starttls-then-stop", "S8-inflight-across-starttls", "S9-unrouted-first-requests"} {
 					ps = append(ps, Phase{Name: s + "-go126", Race: true, Run: c15Scenario, Bin: "verif-race126", Env: map[string]string{"GOMAXPROCS": "16"}})
 				}
 			}
@@ -88,6 +88,10 @@ func c15Scenario(c *Ctx) {
 			c12Tails = nil
 		case hasPfx(arg, "S4"):
 			c08RunWith(c, 10, 1)
+		case hasPfx(arg, "S9"):
+			for round := 0; round < 12; round++ {
+				c15UnroutedFirst(c, round)
+			}
 		case hasPfx(arg, "S8"):
 			for round := 0; round < 6; round++ {
 				c15InflightAcrossStartTLS(c, pki, round)
@@ -105,6 +109,58 @@ func c15Scenario(c *Ctx) {
 		c.Distinct("executions", fmt.Sprintf("%s/%d", arg, rep))
 	}
 	c.Sample(map[string]any{"scenario": arg, "repetitions": reps})
+}
+
+// c15UnroutedFirst: the very first requests a fresh server ever sees have no route (no default route either) and are
+// dispatched concurrently - several in one segment on one connection, and on several connections at once: whatever the
+// mux sets up lazily for them is set up under concurrency.
+func c15UnroutedFirst(c *Ctx, round int) {
+	srv, err := startSrv(SrvCfg{}, func(m *gldap.Mux) {
+		if round%2 == 1 {
+			m.Bind(func(w *gldap.ResponseWriter, r *gldap.Request) { w.Write(r.NewBindResponse(gldap.WithResponseCode(0))) })
+		}
+	})
+	if err != nil {
+		c.Inconclusive("server start: " + err.Error())
+		return
+	}
+	var buf []byte
+	for i := 0; i < 8; i++ {
+		var op *sber.Node
+		switch i % 4 {
+		case 0:
+			op = sber.Search{Base: []byte("dc=x"), Scope: 2, Filter: sber.PresentFilter("cn"), Attrs: [][]byte{}}.Node()
+		case 1:
+			op = sber.DelRequest([]byte("cn=x"))
+		case 2:
+			op = sber.ExtendedRequest([]byte("1.2.3.4"), nil, false)
+		default:
+			op = sber.AddRequest([]byte("cn=x"), nil)
+		}
+		buf = append(buf, sber.Message(int64(i+1), op, nil).Encode()...)
+	}
+	var wg sync.WaitGroup
+	for k := 0; k < 1+round%3; k++ {
+		wg.Add(1)
+		go func() {
+			defer wg.Done()
+			cn, err := net.Dial("tcp", srv.Addr)
+			if err != nil {
+				return
+			}
+			defer cn.Close()
+			cn.Write(buf)
+			cl := wrapClient(cn)
+			for i := 0; i < 8; i++ {
+				if _, err := cl.ReadMsg(5 * time.Second); err != nil {
+					break
+				}
+			}
+		}()
+	}
+	wg.Wait()
+	srv.StopWithin(patience)
+	c.Count("fresh_servers_whose_first_requests_were_unrouted", 1)
 }
 
 // c15StartTLSThenStop: connections are upgraded with StartTLS and then the server is stopped WITHOUT any traffic over
